@@ -51,7 +51,7 @@ spec fn u_arr(a: Seq<J>, dm: DM, seen: SS) -> UR<Seq<J>>
     }
 }
 
-// visible members, in order, skipping _sd and _sd_alg
+// visible members, in order, skipping the digest list `_sd` (the `_sd_alg` marker is a top-level matter: see u_top)
 spec fn u_members(m: Seq<(Seq<char>, J)>, dm: DM, seen: SS) -> UR<Seq<(Seq<char>, J)>>
     decreases unseen(dm, seen), m, 0nat via u_members_dec
 {
@@ -60,7 +60,7 @@ spec fn u_members(m: Seq<(Seq<char>, J)>, dm: DM, seen: SS) -> UR<Seq<(Seq<char>
             UR::Err => UR::Err,
             UR::Ok(out, c1) => {
                 let (k, v) = m.last();
-                if k == K_SD() || k == K_SD_ALG() { UR::Ok(out, c1) } else {
+                if k == K_SD() { UR::Ok(out, c1) } else {
                     match u_val(v, dm, seen.union(c1)) {
                         UR::Err => UR::Err,
                         UR::Ok(x, c2) => UR::Ok(j_insert(out, k, x), c1.union(c2)),
@@ -212,4 +212,60 @@ broadcast proof fn b_unseen_union(dm: DM, seen: SS, c: SS)
 broadcast group group_unpack {
     b_union_assoc, b_union_insert, b_union_empty, b_insert_as_union, b_insert_union, b_seen_empty, b_seen_push,
     b_jv_seq_push, b_jv_seq_len, b_jv_seq_idx, b_take_all_v, b_take_all_e, b_unseen_insert, b_unseen_union,
+}
+
+// ---- top level: process the signed payload, then remove the hash-algorithm marker (draft-07: `_sd_alg` is a top-level claim only).
+// Because the marker is still a member while digests are processed, a disclosure naming `_sd_alg` collides with it and is refused.
+spec fn j_remove_key(m: Seq<(Seq<char>, J)>, k: Seq<char>) -> Seq<(Seq<char>, J)> { if j_has(m, k) { m.remove(j_idx(m, k)) } else { m } }
+spec fn u_top(p: Seq<(Seq<char>, J)>, dm: DM) -> UR<J> {
+    match u_val(J::Obj(p), dm, Set::empty()) {
+        UR::Ok(J::Obj(out), c) => UR::Ok(J::Obj(j_remove_key(out, K_SD_ALG())), c),
+        UR::Ok(other, c) => UR::Ok(other, c),
+        UR::Err => UR::Err,
+    }
+}
+
+// the objects the disclosure processing produces have unique member names
+proof fn lemma_u_members_unique(m: Seq<(Seq<char>, J)>, dm: DM, seen: SS)
+    ensures u_members(m, dm, seen) matches UR::Ok(out, c) ==> keys_unique(out)
+    decreases m.len()
+{
+    if m.len() > 0 {
+        lemma_u_members_unique(m.drop_last(), dm, seen);
+        if let UR::Ok(out, c1) = u_members(m.drop_last(), dm, seen) {
+            let (k, v) = m.last();
+            if k != K_SD() {
+                if let UR::Ok(x, c2) = u_val(v, dm, seen.union(c1)) { lemma_j_insert_unique(out, k, x); }
+            }
+        }
+    }
+}
+proof fn lemma_u_digests_unique(ds: Seq<J>, dm: DM, seen: SS, out0: Seq<(Seq<char>, J)>)
+    requires keys_unique(out0)
+    ensures u_digests(ds, dm, seen, out0) matches UR::Ok(out, c) ==> keys_unique(out)
+    decreases ds.len()
+{
+    if ds.len() > 0 {
+        lemma_u_digests_unique(ds.drop_last(), dm, seen, out0);
+        if let UR::Ok(out, c1) = u_digests(ds.drop_last(), dm, seen, out0) {
+            if let J::Str(s) = ds.last() {
+                if !seen.union(c1).contains(s) && dm.contains_key(s) {
+                    if let J::Arr(x) = dm[s] { if x.len() == 3 { if let J::Str(k) = x[1] {
+                        if !(k == K_SD() || k == K_DOTS() || j_has(out, k)) {
+                            if let UR::Ok(v, c2) = u_val(x[2], dm, seen.union(c1).insert(s)) { lemma_push_unique(out, k, v); }
+                        }
+                    } } }
+                }
+            }
+        }
+    }
+}
+proof fn lemma_u_top_no_sd_alg(p: Seq<(Seq<char>, J)>, dm: DM)
+    ensures u_top(p, dm) matches UR::Ok(x, c) ==> (x is Obj && !j_has(x->Obj_0, K_SD_ALG()))
+{
+    lemma_u_members_unique(p, dm, Set::empty());
+    if let UR::Ok(out, c1) = u_members(p, dm, Set::empty()) {
+        if let Some(J::Arr(ds)) = j_get(p, K_SD()) { lemma_u_digests_unique(ds, dm, Set::<Seq<char>>::empty().union(c1), out); }
+        if let UR::Ok(J::Obj(o2), c) = u_val(J::Obj(p), dm, Set::empty()) { lemma_remove_key_gone(o2, K_SD_ALG()); }
+    }
 }
